@@ -360,6 +360,9 @@ func isInterfaceButNotError(t types.Type) bool {
 func sel2(h Term, r Term) Term { return sel(h, r, r.Sort.Elem) }
 
 func (fv *FuncVerifier) evalFuncCall(fn *types.Func, call *ast.CallExpr, st *State) []Term {
+	savedCall := fv.curCall
+	fv.curCall = call
+	defer func() { fv.curCall = savedCall }()
 	key := funcKey(fn)
 	sig := fn.Type().(*types.Signature)
 	// specification helpers
@@ -506,6 +509,12 @@ func (fv *FuncVerifier) evalSpecHelper(fn *types.Func, call *ast.CallExpr, st *S
 		return []Term{sel(st.vars[top], k, sortBool)}
 	case "__fresh":
 		return []Term{boolT(true)}
+	case "__alloc":
+		x := fv.eval(call.Args[0], st)
+		if x.Sort == nil || x.Sort.Kind != KRef {
+			reject("__alloc of a non-reference")
+		}
+		return []Term{sel(fv.allocSet(st, x.Sort), x, sortBool)}
 	case "__eq":
 		a := fv.eval(call.Args[0], st)
 		b := fv.evalTo(call.Args[1], fv.typeOf(call.Args[0]), st)
@@ -537,10 +546,85 @@ func errIs(e, target Term) Term {
 	return and(not(eq(e, Term{"0", sortInt})), mk(sortBool, "(= (err_root %s) (err_root %s))", e.S, target.S))
 }
 
+// callTSubst maps the type parameters of a generic callee (receiver and function
+// type parameters of its origin) to the type arguments at this call.
+func (fv *FuncVerifier) callTSubst(fn *types.Func, call *ast.CallExpr) map[*types.TypeParam]types.Type {
+	origin := fn.Origin()
+	osig := origin.Type().(*types.Signature)
+	m := map[*types.TypeParam]types.Type{}
+	if rtp := osig.RecvTypeParams(); rtp != nil && rtp.Len() > 0 {
+		if recv := fn.Type().(*types.Signature).Recv(); recv != nil {
+			rt := types.Unalias(recv.Type())
+			if p, ok := rt.(*types.Pointer); ok {
+				rt = types.Unalias(p.Elem())
+			}
+			if n, ok := rt.(*types.Named); ok && n.TypeArgs() != nil {
+				for i := 0; i < rtp.Len() && i < n.TypeArgs().Len(); i++ {
+					m[rtp.At(i)] = fv.subst(n.TypeArgs().At(i))
+				}
+			}
+		}
+	}
+	if tp := osig.TypeParams(); tp != nil && tp.Len() > 0 && call != nil {
+		if id := calleeIdent(call); id != nil {
+			if inst, ok := fv.info().Instances[id]; ok {
+				for i := 0; i < tp.Len() && i < inst.TypeArgs.Len(); i++ {
+					m[tp.At(i)] = fv.subst(inst.TypeArgs.At(i))
+				}
+			}
+		}
+	}
+	// identity mappings (generic code verified generically) are dropped
+	for k, v := range m {
+		if tp, ok := types.Unalias(v).(*types.TypeParam); ok && tp.Obj().Name() == k.Obj().Name() {
+			delete(m, k)
+		}
+	}
+	if len(m) == 0 {
+		return nil
+	}
+	return m
+}
+
+func tsubstKey(m map[*types.TypeParam]types.Type) string {
+	if len(m) == 0 {
+		return ""
+	}
+	var parts []string
+	for k, v := range m {
+		parts = append(parts, k.Obj().Name()+"="+types.TypeString(v, nil))
+	}
+	sort.Strings(parts)
+	return "<" + strings.Join(parts, ",") + ">"
+}
+
 // ---------------------------------------------------------------- pure functions
 
 func (fv *FuncVerifier) pureApp(fn *types.Func, sp *FuncSpec, args []Term, st *State, p token.Pos) []Term {
-	pd := fv.getPure(fn, sp)
+	if fd := fv.prog.decls[sp.Key]; fd == nil || fd.decl.Body == nil {
+		// interface method (or external function) declared pure: an uninterpreted,
+		// deterministic function of its arguments
+		var ps []string
+		var as []Term
+		for _, a := range args {
+			if a.Sort != nil {
+				ps = append(ps, a.Sort.Name)
+				as = append(as, a)
+			}
+		}
+		sig := fn.Type().(*types.Signature)
+		var out []Term
+		for i := 0; i < sig.Results().Len(); i++ {
+			rs := fv.mustSort(sig.Results().At(i).Type(), "result")
+			n := fmt.Sprintf("u_%s_%d_%s", sanitize(strings.TrimPrefix(sp.Key, "github.com/synnaxlabs/")), i, sanitize(strings.Join(ps, "_")))
+			fv.u.declare("fun:"+n, fmt.Sprintf("(declare-fun %s (%s) %s)", n, strings.Join(ps, " "), rs.Name))
+			out = append(out, app(rs, n, as...))
+		}
+		fv.u.note("%s has no body here (interface method): modelled as an uninterpreted, deterministic function of its arguments", sp.Key)
+		fv.pureUsed[sp.Key] = true
+		return out
+	}
+	pd := fv.getPure(fn, sp, fv.callTSubst(fn, fv.curCall))
 	var out []Term
 	var all []Term
 	for _, a := range args {
@@ -549,9 +633,6 @@ func (fv *FuncVerifier) pureApp(fn *types.Func, sp *FuncSpec, args []Term, st *S
 		}
 	}
 	for _, hf := range pd.heaps {
-		if strings.HasPrefix(hf.name, "alloc:") {
-			reject("allocation in pure function")
-		}
 		h, ok := st.heaps[hf.name]
 		if !ok {
 			// initial heap
@@ -565,11 +646,11 @@ func (fv *FuncVerifier) pureApp(fn *types.Func, sp *FuncSpec, args []Term, st *S
 				if !found {
 					*fv.pureHeaps = append(*fv.pureHeaps, hf)
 				}
-				h = Term{"hp_" + hf.name, hf.sort}
+				h = Term{"hp_" + sanitize(hf.name), hf.sort}
 			} else if ih, ok2 := fv.initHeaps[hf.name]; ok2 {
 				h = ih
 			} else {
-				n := hf.name + "!0"
+				n := sanitize(hf.name) + "!0"
 				fv.u.declare("heap:"+n, fmt.Sprintf("(declare-const %s %s)", n, hf.sort.Name))
 				h = Term{n, hf.sort}
 				fv.initHeaps[hf.name] = h
@@ -583,20 +664,43 @@ func (fv *FuncVerifier) pureApp(fn *types.Func, sp *FuncSpec, args []Term, st *S
 	return out
 }
 
-func (fv *FuncVerifier) getPure(fn *types.Func, sp *FuncSpec) *pureDef {
-	key := sp.Key
+func (fv *FuncVerifier) getPure(fn *types.Func, sp *FuncSpec, ts map[*types.TypeParam]types.Type) *pureDef {
+	key := sp.Key + tsubstKey(ts)
 	if pd, ok := fv.pureDefs[key]; ok {
 		if pd == nil {
 			reject("recursive pure function %s", key)
 		}
 		return pd
 	}
-	fd := fv.prog.decls[key]
+	fd := fv.prog.decls[sp.Key]
 	if fd == nil || fd.decl.Body == nil {
-		reject("pure function %s has no body in the loaded program", key)
+		// interface method (or external function) declared pure: uninterpreted function of its arguments
+		sig := fn.Type().(*types.Signature)
+		var ps []string
+		if sig.Recv() != nil {
+			ps = append(ps, fv.mustSort(sig.Recv().Type(), "receiver").Name)
+		}
+		for i := 0; i < sig.Params().Len(); i++ {
+			if s := fv.sortOf(sig.Params().At(i).Type()); s != nil {
+				ps = append(ps, s.Name)
+			}
+		}
+		pd := &pureDef{}
+		for i := 0; i < sig.Results().Len(); i++ {
+			rs := fv.mustSort(sig.Results().At(i).Type(), "result")
+			n := fmt.Sprintf("u_%s_%d%s", sanitize(strings.TrimPrefix(sp.Key, "github.com/synnaxlabs/")), i, sanitize(strings.Join(ps, "_")))
+			fv.u.declare("fun:"+n, fmt.Sprintf("(declare-fun %s (%s) %s)", n, strings.Join(ps, " "), rs.Name))
+			pd.names = append(pd.names, n)
+			pd.sorts = append(pd.sorts, rs)
+		}
+		fv.u.note("%s has no body here (interface method): modelled as an uninterpreted, deterministic function of its arguments", sp.Key)
+		fv.pureDefs[key] = pd
+		return pd
 	}
 	if sp.Kind == SKSpecFunc && sp.Body == "" {
 		// uninterpreted
+		fv.frames = append(fv.frames, &frame{fd: fd, info: fd.pkg.TypesInfo, pkg: fd.pkg, tsubst: ts})
+		defer func() { fv.frames = fv.frames[:len(fv.frames)-1] }()
 		sig := fd.fn.Type().(*types.Signature)
 		var ps []string
 		for i := 0; i < sig.Params().Len(); i++ {
@@ -611,17 +715,15 @@ func (fv *FuncVerifier) getPure(fn *types.Func, sp *FuncSpec) *pureDef {
 	}
 	fv.pureDefs[key] = nil
 	sig := fd.fn.Type().(*types.Signature)
-	if sig.TypeParams() != nil || sig.RecvTypeParams() != nil {
-		reject("generic pure function %s", key)
-	}
 	// build in term mode
 	savedTerm, savedHeaps, savedSpec, savedBound := fv.termMode, fv.pureHeaps, fv.specMode, fv.bound
 	var heaps []heapFormal
 	fv.termMode, fv.pureHeaps, fv.specMode = true, &heaps, 0
 	fv.bound = map[types.Object]Term{}
-	nf := &frame{fd: fd, info: fd.pkg.TypesInfo, pkg: fd.pkg}
+	nf := &frame{fd: fd, info: fd.pkg.TypesInfo, pkg: fd.pkg, tsubst: ts}
 	st := &State{vars: map[types.Object]Term{}, heaps: map[string]Term{}}
 	var formals []string
+	fv.frames = append(fv.frames, nf)
 	bindParam := func(v *types.Var, i int) {
 		s := fv.sortOf(v.Type())
 		if s == nil {
@@ -650,7 +752,6 @@ func (fv *FuncVerifier) getPure(fn *types.Func, sp *FuncSpec) *pureDef {
 		}
 		nf.results = append(nf.results, obj)
 	}
-	fv.frames = append(fv.frames, nf)
 	var results []Term
 	func() {
 		defer func() {
@@ -661,7 +762,7 @@ func (fv *FuncVerifier) getPure(fn *types.Func, sp *FuncSpec) *pureDef {
 	}()
 	pd := &pureDef{heaps: heaps}
 	for _, hf := range heaps {
-		formals = append(formals, fmt.Sprintf("(hp_%s %s)", hf.name, hf.sort.Name))
+		formals = append(formals, fmt.Sprintf("(hp_%s %s)", sanitize(hf.name), hf.sort.Name))
 	}
 	base := "f_" + sanitize(strings.TrimPrefix(key, "github.com/synnaxlabs/"))
 	for i, r := range results {
@@ -681,7 +782,7 @@ func (fv *FuncVerifier) getPure(fn *types.Func, sp *FuncSpec) *pureDef {
 		pd.sorts = append(pd.sorts, r.Sort)
 	}
 	fv.pureDefs[key] = pd
-	fv.pureUsed[key] = true
+	fv.pureUsed[sp.Key] = true
 	return pd
 }
 
@@ -758,6 +859,9 @@ func (fv *FuncVerifier) termStmts(stmts []ast.Stmt, st *State) []Term {
 		case *ast.ExprStmt:
 			// e.g. panic(...) in a pure function: value is arbitrary on that path
 			if call, ok := s.X.(*ast.CallExpr); ok {
+				if fv.isIgnoredCall(call) {
+					continue
+				}
 				if b, ok := fv.calleeOf(call).(*types.Builtin); ok && b.Name() == "panic" {
 					fr := fv.frame()
 					var out []Term
@@ -840,14 +944,8 @@ func (fv *FuncVerifier) inlineCall(fn *types.Func, call *ast.CallExpr, st *State
 	callerFrame := fv.frame()
 	args, wb := fv.receiverAndArgs(fn, call, st)
 	sig := fd.fn.Type().(*types.Signature)
-	nf := &frame{fd: fd, info: fd.pkg.TypesInfo, pkg: fd.pkg}
-	// generic instantiation
-	if inst, ok := fv.info().Instances[calleeIdent(call)]; ok && sig.TypeParams() != nil {
-		nf.tsubst = map[*types.TypeParam]types.Type{}
-		for i := 0; i < sig.TypeParams().Len(); i++ {
-			nf.tsubst[sig.TypeParams().At(i)] = fv.subst(inst.TypeArgs.At(i))
-		}
-	}
+	nf := &frame{fd: fd, info: fd.pkg.TypesInfo, pkg: fd.pkg, tsubst: fv.callTSubst(fn, call)}
+	fv.frames = append(fv.frames, nf) // from here on types are seen through the callee's instantiation
 	k := 0
 	if sig.Recv() != nil {
 		if args[0].Sort != nil {
@@ -897,17 +995,18 @@ func (fv *FuncVerifier) inlineCall(fn *types.Func, call *ast.CallExpr, st *State
 		nf.results = append(nf.results, obj)
 	}
 	base := len(st.pc)
-	fv.frames = append(fv.frames, nf)
 	end := fv.execBlock(fd.decl.Body.List, st.clone())
 	if end != nil {
 		fv.finishReturn(end, fd.decl.End())
 	}
-	fv.frames = fv.frames[:len(fv.frames)-1]
 	m := fv.mergeStates(nf.rets, base)
 	if m == nil {
 		st.assume(boolT(false))
-		return fv.deadResults(sig.Results())
+		r := fv.deadResults(sig.Results())
+		fv.frames = fv.frames[:len(fv.frames)-1]
+		return r
 	}
+	fv.frames = fv.frames[:len(fv.frames)-1]
 	*st = *m
 	var out []Term
 	for _, r := range nf.results {
@@ -955,11 +1054,33 @@ func calleeIdent(call *ast.CallExpr) *ast.Ident {
 // evalWrapper evaluates a generated specification function with its parameters
 // bound (by position) to the given terms.
 func (fv *FuncVerifier) evalWrapper(pkgPath, name string, vals []Term, st *State, old *State) Term {
+	return fv.evalWrapperT(pkgPath, name, vals, st, old, nil)
+}
+
+// evalWrapperPick evaluates a sub-expression (chosen by pick) of the wrapper's body.
+func (fv *FuncVerifier) evalWrapperPick(pkgPath, name string, vals []Term, st *State, old *State, pick func(ast.Expr) ast.Expr) Term {
+	saved := fv.pick
+	fv.pick = pick
+	defer func() { fv.pick = saved }()
+	return fv.evalWrapperT(pkgPath, name, vals, st, old, nil)
+}
+
+// evalWrapperT: targs are the actual types for the wrapper's type parameters (in order).
+func (fv *FuncVerifier) evalWrapperT(pkgPath, name string, vals []Term, st *State, old *State, targs []types.Type) Term {
 	fd := fv.prog.decls[pkgPath+"."+name]
 	if fd == nil {
 		reject("specification function %s.%s not found (contract not type-checked?)", pkgPath, name)
 	}
 	nf := &frame{fd: fd, info: fd.pkg.TypesInfo, pkg: fd.pkg}
+	if tp := fd.fn.Type().(*types.Signature).TypeParams(); tp != nil && len(targs) > 0 {
+		nf.tsubst = map[*types.TypeParam]types.Type{}
+		for i := 0; i < tp.Len() && i < len(targs); i++ {
+			if t2, ok := types.Unalias(targs[i]).(*types.TypeParam); ok && t2.Obj().Name() == tp.At(i).Obj().Name() {
+				continue
+			}
+			nf.tsubst[tp.At(i)] = targs[i]
+		}
+	}
 	sig := fd.fn.Type().(*types.Signature)
 	savedBound := fv.bound
 	nb := map[types.Object]Term{}
@@ -985,7 +1106,12 @@ func (fv *FuncVerifier) evalWrapper(pkgPath, name string, vals []Term, st *State
 		fv.oldState = savedOld
 	}()
 	ret := fd.decl.Body.List[0].(*ast.ReturnStmt)
-	return fv.eval(ret.Results[0], st)
+	e := ret.Results[0]
+	if fv.pick != nil {
+		e = fv.pick(e)
+		fv.pick = nil
+	}
+	return fv.eval(e, st)
 }
 
 func (fv *FuncVerifier) modularCall(fn *types.Func, sp *FuncSpec, args []Term, st *State, p token.Pos) []Term {
@@ -1034,31 +1160,15 @@ func (fv *FuncVerifier) havocFootprint(sp *FuncSpec, args []Term, st *State, old
 		fv.havocAllHeaps(st)
 		return
 	}
-	byHeap := map[string][]Term{}
-	sorts := map[string]*Sort{}
+	fp := footprint{}
 	for _, c := range sp.Modifies {
-		r := fv.evalWrapper(sp.PkgPath, c.Wrapper, args, old, nil)
-		if r.Sort == nil || r.Sort.Kind != KRef {
-			reject("modifies target %q of %s is not a pointer or map", c.Text, sp.Key)
-		}
-		hn := heapName(r.Sort)
-		byHeap[hn] = append(byHeap[hn], r)
-		sorts[hn] = r.Sort
+		fp.add(fv.evalModTarget(sp.PkgPath, c.Wrapper, args, old))
 	}
-	var names []string
-	for hn := range byHeap {
-		names = append(names, hn)
-	}
-	sort.Strings(names)
-	for _, hn := range names {
-		ref := sorts[hn]
+	for _, hn := range fp.names() {
+		ref := fp[hn][0].ref.Sort
 		cur := fv.heap(st, ref)
 		nh := fv.u.freshConst(hn, cur.Sort)
-		var neq []Term
-		for _, r := range byHeap[hn] {
-			neq = append(neq, not(mk(sortBool, "(= r!f %s)", r.S)))
-		}
-		st.assume(mk(sortBool, "(forall ((r!f Int)) (! (=> %s (= (select %s r!f) (select %s r!f))) :pattern ((select %s r!f))))", and(neq...).S, nh.S, cur.S, nh.S))
+		fv.assumeFrame(st, fp[hn], ref, cur, nh, "")
 		st.heaps[hn] = nh
 	}
 }
@@ -1100,13 +1210,9 @@ func (fv *FuncVerifier) checkFrame(st *State, p token.Pos, ret int) {
 	if fv.spec.ModAll {
 		return
 	}
-	foot := map[string][]Term{}
+	fp := footprint{}
 	for _, c := range fv.spec.Modifies {
-		r := fv.evalWrapper(fv.spec.PkgPath, c.Wrapper, fv.entryVals(), fv.entry, nil)
-		if r.Sort == nil || r.Sort.Kind != KRef {
-			reject("modifies target %q is not a pointer or map", c.Text)
-		}
-		foot[heapName(r.Sort)] = append(foot[heapName(r.Sort)], r)
+		fp.add(fv.evalModTarget(fv.spec.PkgPath, c.Wrapper, fv.entryVals(), fv.entry))
 	}
 	var names []string
 	for hn := range st.heaps {
@@ -1121,16 +1227,16 @@ func (fv *FuncVerifier) checkFrame(st *State, p token.Pos, ret int) {
 		if !ok || init.S == cur.S {
 			continue
 		}
-		r := fv.u.freshConst("fr", sortInt)
-		var hyp []Term
-		for _, f := range foot[hn] {
-			hyp = append(hyp, not(eq(r, f)))
+		ref := fv.heapSorts[hn]
+		if ref == nil {
+			reject("internal: heap %s without sort", hn)
 		}
+		alloc := ""
 		if al, ok := fv.initHeaps["alloc:"+hn]; ok {
-			hyp = append(hyp, sel(al, r, sortBool))
+			alloc = al.S
 		}
-		goal := implies(and(hyp...), mk(sortBool, "(= (select %s %s) (select %s %s))", cur.S, r.S, init.S, r.S))
-		fv.oblige(st, "frame", fmt.Sprintf("%s:ret%d", hn, ret), goal, p, "objects outside the modifies clause are unchanged in "+hn)
+		goal := fv.frameGoal(fp[hn], ref, init, cur, alloc)
+		fv.oblige(st, "frame", fmt.Sprintf("%s:ret%d", hn, ret), goal, p, "objects (and fields) outside the modifies clause are unchanged in "+hn)
 	}
 }
 
@@ -1160,7 +1266,35 @@ func (fv *FuncVerifier) evalClauseHere(c *Clause, st *State, pos token.Pos) Term
 			vals[i] = v
 		}
 	}
+	if fv.clausePick != nil {
+		pk := fv.clausePick
+		fv.clausePick = nil
+		return fv.evalWrapperPick(sp.PkgPath, c.Wrapper, vals, st, fv.entry, pk)
+	}
 	return fv.evalWrapper(sp.PkgPath, c.Wrapper, vals, st, fv.entry)
+}
+
+// evalLoopModTarget evaluates one `loop N modifies` entry in the state before the loop.
+func (fv *FuncVerifier) evalLoopModTarget(c *Clause, st *State, pos token.Pos) modTarget {
+	field := ""
+	fv.clausePick = func(e ast.Expr) ast.Expr {
+		e = ast.Unparen(e)
+		if u, ok := e.(*ast.UnaryExpr); ok && u.Op == token.AND {
+			if se, ok := ast.Unparen(u.X).(*ast.SelectorExpr); ok {
+				field = se.Sel.Name
+				return se.X
+			}
+		}
+		return e
+	}
+	r := fv.evalClauseHere(c, st, pos)
+	if r.Sort == nil || r.Sort.Kind != KRef {
+		reject("loop modifies target %q is not a pointer, a map or &ptr.field", c.Text)
+	}
+	if field != "" && (r.Sort.Key != nil || r.Sort.Elem.Kind != KStruct || r.Sort.Elem.field(field) == nil) {
+		reject("loop modifies target %q: not a modelled struct field", c.Text)
+	}
+	return modTarget{r, field}
 }
 
 // ---------------------------------------------------------------- global initialisers
